@@ -148,15 +148,18 @@ def replay(run: common.Run, case: dict, key: str = ""):
 def campaign(run: common.Run) -> None:
     q = run.tier == "quick"
 
+    # values whose first / last character is a line break, a quote or a backslash: where slicing the delimiters off a literal goes wrong
+    EDGY = ["\nabc", "abc\n", "\n", "\n\nx", "x\n\n", "'", "\"", "'a", "a'", "\"a", "a\"", "\'\'\'", "\"\"\"", "a\'\'\'b", " ", " a ", "\ta", "a\\", "\\a", "a'b\"c", "\r\nx"]
+
     @st.composite
     def str_case(draw):
-        s = draw(values.text(10))
+        s = draw(values.text(10) | st.sampled_from(EDGY) | st.tuples(st.sampled_from(EDGY), values.text(4)).map("".join) | st.tuples(values.text(4), st.sampled_from(EDGY)).map("".join))
         src, info = draw(literals.spell_string(s))
         return s, src, info
 
     @st.composite
     def bytes_case(draw):
-        b = draw(values.binary(10))
+        b = draw(values.binary(10) | st.sampled_from(EDGY).map(lambda t: t.encode("utf-8")) | st.tuples(st.sampled_from(EDGY), values.binary(3)).map(lambda t: t[0].encode("utf-8") + t[1]))
         src, info = draw(literals.spell_bytes(b))
         return b, src, info
 
